@@ -227,6 +227,10 @@ def _has(v, x, d=8):
         return any(_has(y, x, d - 1) for y in v.fields)
     if isinstance(v, (list, tuple)):
         return any(_has(y, x, d - 1) for y in v)
+    if isinstance(v, machine.Text):
+        return any(_has(y.value, x, d - 1) for y in v.parts if not isinstance(y, str))      # the rendering of x (its message) is x
+    if isinstance(v, machine.Hole):
+        return _has(v.value, x, d - 1)
     return False
 
 
